@@ -13,6 +13,9 @@ Round 6: each task is scheduled once (sched_fill.scheduled_once, shared with C04
 with the day start (a raw moment gives two capacities for one day: start fraction vs end fraction).
 Round 7: a None handed to the Task.estimate / Task.spent setters is stored on every path (otherwise the reset is a no-op); a
 reset written as a walk over `.children` of the node it is given never resets the nodes it starts from.
+Round 8: the start a forward leaf finally gets is the search result itself (no post-processing); every path of a backward
+leaf takes its start from the fill / the task's end (diamond and overwrite cases of a local are split); keyword spelling of
+the day start in DirectCalendar.
 Not decided: start <= end of a leaf from the numeric interaction of day fractions.
 """
 from __future__ import annotations
